@@ -1,6 +1,6 @@
 """Property -> rules wiring and MANIFEST metadata."""
 from . import facts, sem
-from .rules import f5_trace, f6_kinds, f7_roots, f4_gc, f4_chan, f4_sched, f4_vm, f1_isa, f9_casts, f10_parity, f2_emit, f2_visit, f4_exc, f4_iter, f4_repl, f9_empty, f4_cache, f4_obj, f11_peephole, f8_hazards, f1c_ops
+from .rules import f5_trace, f6_kinds, f7_roots, f4_gc, f4_chan, f4_sched, f4_vm, f1_isa, f9_casts, f10_parity, f2_emit, f2_visit, f3_flow, f4_exc, f4_iter, f4_repl, f9_empty, f4_cache, f4_obj, f11_peephole, f8_hazards, f1c_ops
 
 
 def D(rec):
@@ -90,6 +90,7 @@ def c01(rec, tier):
     # every compiled expression passes through the peephole pass
     f11_peephole.run(rec, F, S)
     f2_visit.run_once(rec, S)
+    f3_flow.run(rec, F, S)
 
 
 def c02(rec, tier):
@@ -128,6 +129,7 @@ def c04(rec, tier):
     f2_emit.run_scoped_state(rec, S)
     f2_emit.run_declare_define(rec, S)
     f2_emit.run_depth_provenance(rec, F)
+    f3_flow.run(rec, F, S)
     f4_exc.run(rec, F)
     f4_exc.run_native_env(rec, F, S)
     f4_vm.synthetic_call_protocol(rec, F)
@@ -167,6 +169,7 @@ def c06(rec, tier):
     f2_emit.run_slots(rec, S)
     f2_emit.run_declare_define(rec, S)
     f2_emit.run_depth_provenance(rec, F)
+    f3_flow.run(rec, F, S)
     f2_emit.run_constant_kinds(rec, S, F)
     f2_emit.run_provenance(rec, S)
     f9_casts.run_static_slices(rec, F)
@@ -204,6 +207,7 @@ def c15(rec, tier):
     f9_empty.run_line_narrowing(rec, F)
     # the peephole pass is part of the front end: its counters are bounded (P6), its windows total
     f11_peephole.run(rec, F, S)
+    f3_flow.run(rec, F, S)
 
 
 def SY(rec):
